@@ -14,6 +14,7 @@
 -/
 import Rl.Printer
 import Rl.Lemmas.Printer
+import Rl.Lemmas.PrinterLive
 open Rl.Printer
 
 /-! ## exactly once -/
@@ -256,3 +257,355 @@ example :
 example :
     (run init [.cmdRead, .eStoreTrue, .issue 0 1, .issue 1 2, .pLoad 0, .pLoad 1, .pLock 0, .pSend 0, .pByte 0,
         .pUnlock 0, .pLock 1]).bind (fun s => step s (.pSend 1)) |>.isNone := by decide
+
+/-! ## gap filling (package V): the flag tracks the read, the direct route, D18/D21 as the only
+   exceptions, progress and liveness of the delivery over all interleavings -/
+
+/-- In every reachable state the shared raw-mode flag is `true` exactly while the editing thread is
+    between the two flag stores of a read (`epc ≠ outside`): the flag a printer loads tells it
+    truthfully whether a read is active AT THE MOMENT OF THE LOAD. -/
+theorem C19_raw_flag_tracks_read (s : Sys) (h : Reach s) : s.raw = true ↔ s.epc ≠ .outside :=
+  reach_rawInv h
+
+/-- Messages printed when no read is active go straight to the terminal, exactly once: in every
+    reachable state with no read in progress (`epc = outside`), an idle printer thread `t` (any `t`)
+    whose next message is `id` can run its whole `print` call (`pLoad`, `pDirect`) without waiting
+    for anybody; the call appends exactly `direct ⟨t,id⟩` to the terminal and touches neither the
+    channel, the wake-up pipe, the mutex, the editor nor the edited text. -/
+theorem C19_print_between_reads_goes_direct (s : Sys) (h : Reach s) (t id : Nat) (q : List Nat)
+    (he : s.epc = .outside) (hpc : (s.pr t).pc = .idle) (hq : (s.pr t).queue = id :: q) :
+    ∃ s', run s [.pLoad t, .pDirect t] = some s' ∧ s'.out = s.out ++ [.direct ⟨t, id⟩] ∧
+      s'.chan = s.chan ∧ s'.pipe = s.pipe ∧ s'.wlock = s.wlock ∧ s'.epc = s.epc ∧ s'.line = s.line ∧
+      (s'.pr t).pc = .idle ∧ (s'.pr t).queue = q ∧ (s'.pr t).hist = (s.pr t).hist ++ [id] := by
+  have hr : s.raw = false := by
+    have := (C19_raw_flag_tracks_read s h)
+    cases hh : s.raw with
+    | false => rfl
+    | true => exact absurd he (this.1 hh)
+  simp [run, step, hpc, hq, hr, Sys.setPr]
+
+/-- D18 stated precisely: the route of a `print` call is decided by its flag load alone.  A load
+    made while no read is active (`epc = outside`) takes the direct route, a load made at any moment
+    of a read (from the `raw := true` store up to the `raw := false` store) takes the channel route.
+    With `C19_no_direct_write_inside_read_partial` (a direct write needs a loaded `false`) and
+    `C19_cooked_print_never_blocked` (the loaded value is kept until the write): the ONLY direct writes
+    that can land inside a read (D18) are those of `print` calls whose flag load preceded that
+    read's `raw := true` store. -/
+theorem C19_load_route (s s' : Sys) (h : Reach s) (t : Nat) (hs : step s (.pLoad t) = some s') :
+    (s.epc = .outside → ∃ id, (s'.pr t).pc = .cooked id) ∧
+    (s.epc ≠ .outside → ∃ id, (s'.pr t).pc = .rawSeen id) := by
+  have hr := C19_raw_flag_tracks_read s h
+  simp only [step] at hs
+  split at hs <;> cases hs
+  rename_i id q hpc hq
+  constructor
+  · intro he
+    have : s.raw = false := by
+      cases hh : s.raw with
+      | false => rfl
+      | true => exact absurd he (hr.1 hh)
+    exact ⟨id, by simp [this]⟩
+  · intro he
+    exact ⟨id, by simp [hr.2 he]⟩
+
+
+/-- The invariant "reader blocked in the main read with no key pending ⇒ no message pending", without
+    the side condition `wlock = none` of `C19_blocked_clean`: in every reachable state in which the
+    editing thread is blocked in `select` (main loop, no key pending, pipe empty) and a message IS in
+    the channel, the mutex is held by a printer that is exactly between its `send` and its wake-up
+    byte, and that printer's next step (`pByte`) is enabled — it wakes the reader.  So the only
+    blocked-with-pending states are this transient one. -/
+theorem C19_blocked_pending_only_mid_print (s : Sys) (h : Reach s) (hb : s.blocked = true) (m : Msg)
+    (hc : s.chan = some m) :
+    ∃ t, s.wlock = some t ∧ (s.pr t).pc = .sent ∧ (step s (.pByte t)).isSome = true := by
+  simp only [Sys.blocked, Bool.and_eq_true, beq_iff_eq, List.isEmpty_iff] at hb
+  obtain ⟨⟨he, _⟩, hp⟩ := hb
+  have h1 := C19_pipe_chan s h
+  simp only [gotFlag, chanFlag, he, hp, hc] at h1
+  unfold sentFlag at h1
+  cases hl : s.wlock with
+  | none => simp [hl] at h1
+  | some t =>
+    simp only [hl] at h1
+    by_cases hs : (s.pr t).pc = .sent
+    · exact ⟨t, rfl, hs, by simp [step, hs]⟩
+    · simp [hs] at h1
+
+/-- No deadlock with a message pending, and D21 named as the only in-read exception: in every
+    reachable state whose channel holds a message, some step of the protocol itself (editing thread
+    or a printer — not the application, not the keyboard) is enabled, EXCEPT in exactly two kinds of
+    quiescent states: the reader waits in a sub-loop with no key pending (finding D21), or no read is
+    in progress and none has been requested (the message waits for the next read, as the property
+    allows). -/
+theorem C19_pending_message_no_deadlock (s : Sys) (h : Reach s) (hc : s.chan.isSome = true) :
+    (∃ l, l.isEnv = false ∧ (step s l).isSome = true) ∨
+    (s.epc = .sub ∧ s.keys = []) ∨ (s.epc = .outside ∧ s.reads = 0) := by
+  have h1 := C19_pipe_chan s h
+  have hw := (reach_inv h).2.woken
+  have hlk := (reach_inv h).2.lock
+  cases he : s.epc with
+  | outside =>
+    cases hr : s.reads with
+    | zero => exact Or.inr (Or.inr ⟨rfl, rfl⟩)
+    | succ r => exact Or.inl ⟨.eStoreTrue, rfl, by simp [step, he, hr]⟩
+  | enabling => exact Or.inl ⟨.eMarkOn, rfl, by simp [step, he]⟩
+  | drawing => exact Or.inl ⟨.ePrompt, rfl, by simp [step, he]⟩
+  | woken =>
+    have := hw he
+    obtain ⟨p, hp⟩ : ∃ p, s.pipe = p + 1 := ⟨s.pipe - 1, by omega⟩
+    exact Or.inl ⟨.eReadByte, rfl, by simp [step, he, hp]⟩
+  | gotByte =>
+    obtain ⟨m, hm⟩ := Option.isSome_iff_exists.mp hc
+    exact Or.inl ⟨.eRecv, rfl, by simp [step, he, hm]⟩
+  | showing m => exact Or.inl ⟨.eShow, rfl, by simp [step, he]⟩
+  | finishing => exact Or.inl ⟨.eMarkOff, rfl, by simp [step, he]⟩
+  | disabling => exact Or.inl ⟨.eStoreFalse, rfl, by simp [step, he]⟩
+  | sub =>
+    cases hk : s.keys with
+    | nil => exact Or.inr (Or.inl ⟨rfl, rfl⟩)
+    | cons k ks => exact Or.inl ⟨.eKey, rfl, by simp [step, he, hk]⟩
+  | waiting =>
+    cases hk : s.keys with
+    | cons k ks => exact Or.inl ⟨.eKey, rfl, by simp [step, he, hk]⟩
+    | nil =>
+      cases hp : s.pipe with
+      | succ p => exact Or.inl ⟨.eWake, rfl, by simp [step, he, hk, hp]⟩
+      | zero =>
+        obtain ⟨m, hm⟩ := Option.isSome_iff_exists.mp hc
+        obtain ⟨t, _, _, hs⟩ := C19_blocked_pending_only_mid_print s h
+          (by simp [Sys.blocked, he, hk, hp]) m hm
+        exact Or.inl ⟨.pByte t, rfl, hs⟩
+
+/-- The next reader steps show the pending message: in every reachable state where the reader is in
+    the main loop with no key pending, a message `m` is in the channel and its `print` call has
+    released the mutex, the editing thread's next four steps (`select` returns, byte read, `try_recv`,
+    `external_print`) are all enabled in a row; they append exactly `shown m`, leave channel and pipe
+    empty, the reader blocked again, and the edited text, the typed keys, the returned lines and all
+    printer threads untouched. -/
+theorem C19_pending_message_shown_by_next_reader_steps (s : Sys) (h : Reach s) (he : s.epc = .waiting)
+    (hk : s.keys = []) (hl : s.wlock = none) (m : Msg) (hc : s.chan = some m) :
+    ∃ s', run s [.eWake, .eReadByte, .eRecv, .eShow] = some s' ∧ s'.out = s.out ++ [.shown m] ∧
+      s'.chan = none ∧ s'.pipe = 0 ∧ s'.epc = .waiting ∧ s'.blocked = true ∧
+      s'.line = s.line ∧ s'.keys = s.keys ∧ s'.results = s.results ∧ s'.pr = s.pr := by
+  have hp := (C19_message_wakes_reader s h he hk hl (by simp [hc])).1
+  simp [run, step, he, hk, hp, hc, Sys.blocked]
+
+
+/-- Nobody but the keyboard can take the delivery away from the reader: a step of any other thread
+    (any printer, the application; `l ∉ edLabels`) never disables an enabled delivery step of the
+    editing thread (`eWake`, `eReadByte`, `eRecv`, `eShow`); the single exception is a key ARRIVING
+    while the reader is still in `select` ("tty first": the key is handled before the message). -/
+theorem C19_delivery_not_disabled (s s1 : Sys) (l e : Label) (hs : step s l = some s1)
+    (hl : l ∉ edLabels) (he : e ∈ [Label.eWake, .eReadByte, .eRecv, .eShow])
+    (hk : e = .eWake → l ≠ .keyArrive) (hen : (step s e).isSome = true) :
+    (step s1 e).isSome = true := by
+  simp only [List.mem_cons, List.not_mem_nil, or_false] at he
+  have hepc : s1.epc = s.epc ∧ s.pipe ≤ s1.pipe ∧ (s.chan.isSome → s1.chan = s.chan) ∧
+      (l ≠ .keyArrive → s1.keys = s.keys) := by
+    cases l with
+    | eStoreTrue | eMarkOn | ePrompt | eKey | eWake | eReadByte | eRecv | eShow | eMarkOff | eStoreFalse =>
+      simp [edLabels] at hl
+    | _ =>
+      simp only [step] at hs
+      all_goals (try split at hs)
+      all_goals (first | (cases hs) | skip)
+      all_goals (simp_all)
+  obtain ⟨h1, h2, h3, h4⟩ := hepc
+  rcases he with rfl | rfl | rfl | rfl
+  · have h4' := h4 (hk rfl)
+    simp only [step, h1, h4'] at hen ⊢
+    split at hen
+    · rename_i p hw hkk hp
+      obtain ⟨p', hp'⟩ : ∃ p', s1.pipe = p' + 1 := ⟨s1.pipe - 1, by omega⟩
+      simp [hw, hkk, hp']
+    · simp at hen
+  · simp only [step, h1] at hen ⊢
+    split at hen
+    · rename_i p hw hp
+      obtain ⟨p', hp'⟩ : ∃ p', s1.pipe = p' + 1 := ⟨s1.pipe - 1, by omega⟩
+      simp [hw, hp']
+    · simp at hen
+  · simp only [step, h1] at hen ⊢
+    split at hen
+    · rename_i m hw hc
+      simp [hw, h3 (by simp [hc]), hc]
+    · rename_i hw hc
+      simp [hw]
+      cases s1.chan <;> simp
+    · simp at hen
+  · simp only [step, h1] at hen ⊢
+    split at hen
+    · simp
+    · simp at hen
+
+/-- The direct route is wait-free and keeps its message: a printer that loaded `raw = false` for
+    message `id` can always perform its write (no lock, no channel), the write appends exactly
+    `direct ⟨t,id⟩` and changes nothing else of the protocol state; and no step of any other thread
+    or of the editor takes the message out of its hand before that. -/
+theorem C19_cooked_print_never_blocked (s : Sys) (t id : Nat) (hpc : (s.pr t).pc = .cooked id) :
+    (∃ s', step s (.pDirect t) = some s' ∧ s'.out = s.out ++ [.direct ⟨t, id⟩] ∧ (s'.pr t).pc = .idle ∧
+        s'.chan = s.chan ∧ s'.pipe = s.pipe ∧ s'.line = s.line ∧ s'.epc = s.epc) ∧
+    (∀ l s1, l ≠ .pDirect t → step s l = some s1 → (s1.pr t).pc = .cooked id) := by
+  constructor
+  · simp [step, hpc, Sys.setPr]
+  · intro l s1 hne hs
+    cases l with
+    | eKey =>
+      simp only [step] at hs; split at hs <;> cases hs
+      · rename_i k ks _ _; cases k <;> simpa [keyMain] using hpc
+      · rename_i k ks _ _; cases k <;> simpa [keySub] using hpc
+    | issue u i =>
+      simp only [step] at hs; cases hs
+      by_cases hu : t = u
+      · subst hu; simpa using hpc
+      · simpa [hu] using hpc
+    | pLoad u | pDirect u | pLock u | pSend u | pByte u | pUnlock u =>
+      by_cases hu : t = u
+      · subst hu
+        simp only [step, hpc] at hs
+        first | (exact absurd rfl hne) | (cases hs) | skip
+        all_goals (try split at hs)
+        all_goals (first | (cases hs) | skip)
+        all_goals simp_all
+      · simp only [step] at hs
+        split at hs <;> cases hs
+        all_goals (simpa [hu] using hpc)
+    | _ =>
+      simp only [step] at hs
+      all_goals (try split at hs)
+      all_goals (first | (cases hs) | skip)
+      all_goals (simpa using hpc)
+
+/-- D21 as the ONLY exception to "shown at the latest when a read next waits with no key pending":
+    in every reachable state in which a message is in the channel, its `print` call has released the
+    mutex, and the editing thread is asleep (none of its steps is enabled), either the thread sits in
+    a sub-loop with no key pending (finding D21), or no read is in progress and none is requested.
+    In particular a reader asleep in the MAIN loop never has a returned `print`'s message pending. -/
+theorem C19_reader_asleep_with_pending_message_only_D21 (s : Sys) (h : Reach s)
+    (hc : s.chan.isSome = true) (hl : s.wlock = none)
+    (hs : ∀ e : Label, e.isEd = true → step s e = none) :
+    (s.epc = .sub ∧ s.keys = []) ∨ (s.epc = .outside ∧ s.reads = 0) := by
+  have hw := (reach_inv h).2.woken
+  cases he : s.epc with
+  | outside =>
+    cases hr : s.reads with
+    | zero => exact Or.inr ⟨rfl, rfl⟩
+    | succ r => have := hs .eStoreTrue rfl; simp [step, he, hr] at this
+  | enabling => have := hs .eMarkOn rfl; simp [step, he] at this
+  | drawing => have := hs .ePrompt rfl; simp [step, he] at this
+  | woken =>
+    have := hw he
+    obtain ⟨p, hp⟩ : ∃ p, s.pipe = p + 1 := ⟨s.pipe - 1, by omega⟩
+    have := hs .eReadByte rfl; simp [step, he, hp] at this
+  | gotByte =>
+    obtain ⟨m, hm⟩ := Option.isSome_iff_exists.mp hc
+    have := hs .eRecv rfl; simp [step, he, hm] at this
+  | showing m => have := hs .eShow rfl; simp [step, he] at this
+  | finishing => have := hs .eMarkOff rfl; simp [step, he] at this
+  | disabling => have := hs .eStoreFalse rfl; simp [step, he] at this
+  | sub =>
+    cases hk : s.keys with
+    | nil => exact Or.inl ⟨rfl, rfl⟩
+    | cons k ks => have := hs .eKey rfl; simp [step, he, hk] at this
+  | waiting =>
+    cases hk : s.keys with
+    | cons k ks => have := hs .eKey rfl; simp [step, he, hk] at this
+    | nil =>
+      have := (C19_message_wakes_reader s h he hk hl hc).2
+      rw [hs .eWake rfl] at this; simp at this
+
+/-- Liveness in the model, over ALL interleavings: start in any reachable state where the reader is
+    in the main loop with no key pending, message `m` is in the channel and its `print` call has
+    released the mutex.  Let the system run ANY sequence of steps `ls` — any number of printer threads
+    making progress or starting new `print` calls, the application issuing messages and read requests,
+    keys being written — in which no key ARRIVES.  Then
+    (1) until `shown m` is on the terminal the editing thread always has a step enabled (it is never
+        blocked and nobody can disable it), and
+    (2) as soon as `ls` contains four steps of the editing thread, `shown m` has been appended to the
+        terminal output (it is among the events written since the start state).
+    (If a key does arrive first, `select` hands the key over first; the property allows that: "at the
+    latest when a read next waits with no key pending".) -/
+theorem C19_pending_message_shown_under_any_interleaving (s : Sys) (h : Reach s) (he : s.epc = .waiting)
+    (hk : s.keys = []) (hl : s.wlock = none) (m : Msg) (hc : s.chan = some m)
+    (ls : List Label) (s' : Sys) (hr : run s ls = some s') (hna : Label.keyArrive ∉ ls) :
+    (Ev.shown m ∈ s'.out.drop s.out.length ∨ ∃ e : Label, e.isEd = true ∧ (step s' e).isSome = true) ∧
+    (4 ≤ (ls.filter Label.isEd).length → Ev.shown m ∈ s'.out.drop s.out.length) := by
+  have hp := (C19_message_wakes_reader s h he hk hl (by simp [hc])).1
+  have hd : Deliv m s := Or.inl ⟨he, hk, by omega, hc⟩
+  rcases deliv_run ls s s' hd hna hr with ⟨hd', hph⟩ | hsh
+  · refine ⟨Or.inr (deliv_enabled hd'), fun h4 => ?_⟩
+    have := dphase_le s
+    have h0 : 1 ≤ dphase s' := by
+      rcases hd' with ⟨e, _⟩ | ⟨e, _⟩ | ⟨e, _⟩ | e <;> simp [dphase, e]
+    omega
+  · exact ⟨Or.inl hsh, fun _ => hsh⟩
+
+/-- The edited text is unaffected by the whole printer machinery, over arbitrary interleavings: along
+    ANY run in which the editing thread reads no key (no `eKey` step) — whatever any number of printer
+    threads do, however many messages are shown (`eWake`/`eReadByte`/`eRecv`/`eShow`), reads starting
+    or ending — the line being edited and the lines returned so far stay exactly as they were; only
+    keys typed by the user change the text. -/
+theorem C19_text_changes_only_by_keys : ∀ (ls : List Label) (s s' : Sys), run s ls = some s' →
+    Label.eKey ∉ ls → s'.line = s.line ∧ s'.results = s.results
+  | [], s, s', h, _ => by simp [run] at h; subst h; exact ⟨rfl, rfl⟩
+  | l :: ls, s, s', h, hk => by
+    simp only [run] at h
+    cases hl : step s l with
+    | none => simp [hl] at h
+    | some s1 =>
+      rw [hl] at h
+      simp only [Option.bind_some] at h
+      have hk1 : l ≠ .eKey := fun e => hk (by simp [e])
+      have hk2 : Label.eKey ∉ ls := fun e => hk (by simp [e])
+      obtain ⟨h1, h2⟩ := C19_text_changes_only_by_keys ls s1 s' h hk2
+      have : s1.line = s.line ∧ s1.results = s.results := by
+        cases l with
+        | eKey => exact absurd rfl hk1
+        | _ =>
+          simp only [step] at hl
+          all_goals (try split at hl)
+          all_goals (first | (cases hl) | skip)
+          all_goals (simp [Sys.setPr])
+      exact ⟨h1.trans this.1, h2.trans this.2⟩
+
+/-! ## non-vacuity of the gap-filling theorems -/
+
+/-- premises of `C19_pending_message_shown_under_any_interleaving` / `…_shown_by_next_reader_steps`
+    hold after this run (reader waiting, no key, mutex free, message 7 of thread 0 in the channel);
+    continuing with an interleaving of a second and third printer thread, a key being written (not yet
+    arrived) and the four editor steps shows the message. -/
+example :
+    (run init [.cmdRead, .eStoreTrue, .eMarkOn, .ePrompt, .issue 0 7, .pLoad 0, .pLock 0, .pSend 0, .pByte 0,
+        .pUnlock 0]).map (fun s => (s.epc, s.keys, s.wlock, s.chan)) =
+      some (.waiting, [], none, some ⟨0, 7⟩) ∧
+    (run init ([.cmdRead, .eStoreTrue, .eMarkOn, .ePrompt, .issue 0 7, .pLoad 0, .pLock 0, .pSend 0, .pByte 0,
+        .pUnlock 0] ++
+        [.issue 1 8, .eWake, .pLoad 1, .issue 2 9, .pLock 1, .eReadByte, .keyWrite .enter, .pLoad 2, .eRecv,
+         .pSend 1, .eShow])).map (fun s => s.out) =
+      some [.rawOn, .prompt, .shown ⟨0, 7⟩] := by
+  constructor <;> rfl
+
+/-- premises of `C19_blocked_pending_only_mid_print`: reader blocked, message in the channel, the
+    printer between `send` and the wake-up byte -/
+example :
+    (run init [.cmdRead, .eStoreTrue, .eMarkOn, .ePrompt, .issue 3 7, .pLoad 3, .pLock 3, .pSend 3]).map
+      (fun s => (s.blocked, s.chan, s.wlock)) = some (true, some ⟨3, 7⟩, some 3) := by rfl
+
+/-- premises of `C19_print_between_reads_goes_direct` (after a complete read, thread 5) -/
+example :
+    (run init [.cmdRead, .eStoreTrue, .eMarkOn, .ePrompt, .keyWrite .enter, .keyArrive, .eKey, .eMarkOff,
+        .eStoreFalse, .issue 5 1]).map (fun s => (s.epc, (s.pr 5).pc, (s.pr 5).queue)) =
+      some (.outside, .idle, [1]) := by rfl
+
+/-- both branches of `C19_load_route` occur: a load outside a read, a load inside one -/
+example :
+    (run init [.issue 0 1, .pLoad 0]).map (fun s => (s.pr 0).pc) = some (.cooked 1) ∧
+    (run init [.cmdRead, .eStoreTrue, .issue 0 1, .pLoad 0]).map (fun s => (s.pr 0).pc) = some (.rawSeen 1) := by
+  constructor <;> rfl
+
+/-- the two exceptional states of `C19_reader_asleep_with_pending_message_only_D21` are both reachable:
+    D21 is `C19_D21_reachable`; "between reads" is the state after the first 16 steps of
+    `C19_inversion_run` (message 1 in the channel, no read active, none requested) -/
+example :
+    (run init (C19_inversion_run.take 16)).map (fun s => (s.epc, s.reads, s.chan, s.wlock)) =
+      some (.outside, 0, some ⟨0, 1⟩, none) := by rfl
